@@ -112,6 +112,66 @@ Proof. vm_compute. repeat split; reflexivity. Qed.
 Example C05_decimal_rows_are_int_rows : forallb (fun row => existsb (fun r2 => String.eqb (fst (fst (fst row))) (fst (fst (fst r2)))) int_rows) dec_rows = true.
 Proof. vm_compute. reflexivity. Qed.
 
+(* ---- union types (font-size, number-or-normal, positive-integer-or-empty, yes-no-number) ---- *)
+Definition urows := Eval vm_compute in filter (fun row => match row with (_, _, _, Some (XUnion _ _)) => true | _ => false end) rows.
+Definition union_lits (x:xr) : list string :=
+  match x with XUnion ms inner => (flat_map (fun m => match m with XRestr _ _ en _ _ _ _ _ => en | _ => [] end) ms ++ inner)%list | _ => [] end.
+Lemma render_int_nonempty z : pstr_eqb (render_int z) [] = false.
+Proof. destruct (render_int z) eqn:E; auto. pose proof (parse_render_int z) as P. rewrite E in P. vm_compute in P. discriminate. Qed.
+Lemma xunion_has m ms inner s : In m ms -> xrun m s = true -> xrun (XUnion ms inner) s = true.
+Proof. intros I H. simpl. apply orb_true_iff. left. apply existsb_exists. exists m. auto. Qed.
+Lemma xunion_unfold ms inner s : xrun (XUnion ms inner) s = existsb (fun m => xrun m s) ms || existsb (fun e => pstr_eqb (collapse s) (cp e)) inner.
+Proof. reflexivity. Qed.
+Lemma union_ints : Forall (fun row => match row with (_, _, Some r, Some x) => forall z, fst (run r (VInt z)) = Ok <-> xrun x (render_int z) = true | _ => False end) urows.
+Proof.
+  unfold urows. repeat apply Forall_cons; try apply Forall_nil; cbv beta iota; intros z.
+  - split; intros _; [eapply xunion_has; [left; reflexivity|apply (xrun_render_int XDecimal z eq_refl)]|reflexivity].
+  - split; intros _; [eapply xunion_has; [left; reflexivity|apply (xrun_render_int XDecimal z eq_refl)]|reflexivity].
+  - rewrite xunion_unfold. cbn [existsb]. rewrite (xrun_render_int XPos z eq_refl). rewrite collapse_nows by apply nows_render_int. change (cp "") with (@nil N). rewrite render_int_nonempty. cbn [xint_ok orb].
+    cbv [run fst r_check_type in_strs isinstance existsb facets cmp_fail num_of xle xlt String.eqb Ascii.eqb Bool.eqb z_of_dec orb andb negb]. simpl.
+    destruct (Z.leb_spec 1 z), (Z.leb_spec z 0), (Z.ltb_spec 0 z); simpl; split; intros; try reflexivity; try discriminate; lia.
+  - split; intros _; [eapply xunion_has; [right; left; reflexivity|apply (xrun_render_int XDecimal z eq_refl)]|reflexivity].
+Qed.
+Lemma union_strs : Forall (fun row => match row with (_, _, Some r, Some x) => forall s, fst (run r (VStr s)) = Ok <-> in_strs (VStr s) (union_lits x) = true | _ => False end) urows.
+Proof.
+  unfold urows. repeat apply Forall_cons; try apply Forall_nil; cbv beta iota; intros s.
+  all: cbn -[pstr_eqb cp cleaned_token]; unfold r_check_type; cbn -[pstr_eqb cp cleaned_token];
+    repeat match goal with |- context [if ?b then _ else _] => destruct b eqn:? end; simpl; split; intros; try reflexivity; try discriminate; try congruence.
+Qed.
+Lemma union_lits_valid : forallb (fun row => match row with (_, _, Some r, Some x) => forallb (fun l => xrun x (cp l)) (union_lits x) | _ => false end) urows = true.
+Proof. vm_compute. reflexivity. Qed.
+Lemma union_floats : Forall (fun row => match row with
+   | (_, _, Some r, Some (XUnion ms inner)) => In XDecimal ms -> forall q rp, fst (run r (VFloat FPlain q rp)) = Ok | _ => False end) urows.
+Proof.
+  unfold urows. repeat apply Forall_cons; try apply Forall_nil; cbv beta iota; intros I q rp; try reflexivity.
+  exfalso. destruct I as [I|[]]. discriminate.
+Qed.
+(* for every union type: EVERY int is accepted iff its decimal text is valid; a str is accepted iff it is one of the union's literals,
+   each of which is valid text; on the unions with a decimal member every finite float with a plain decimal repr is accepted and valid *)
+Theorem C05_unions : forall t c r x, In (t, c, Some r, Some x) urows ->
+  (forall z, fst (run r (VInt z)) = Ok <-> xrun x (render (VInt z)) = true)
+  /\ (forall s, fst (run r (VStr s)) = Ok <-> exists lit, In lit (union_lits x) /\ s = cp lit)
+  /\ (forall lit, In lit (union_lits x) -> xrun x (render (VStr (cp lit))) = true)
+  /\ (forall ms inner q rp q', x = XUnion ms inner -> In XDecimal ms -> nows rp = true -> parse_decimal rp = Some q' ->
+        fst (run r (VFloat FPlain q rp)) = Ok /\ xrun x (render (VFloat FPlain q rp)) = true).
+Proof.
+  intros t c r x I.
+  pose proof (proj1 (Forall_forall _ _) union_ints _ I) as A. pose proof (proj1 (Forall_forall _ _) union_strs _ I) as B.
+  pose proof (proj1 (forallb_forall _ _) union_lits_valid _ I) as V. pose proof (proj1 (Forall_forall _ _) union_floats _ I) as F.
+  cbv beta iota in A, B, V, F. repeat split.
+  - apply A.
+  - apply A.
+  - intros H. apply B in H. apply in_strs_In in H. exact H.
+  - intros H. apply B. apply in_strs_In. exact H.
+  - intros lit L. rewrite forallb_forall in V. apply V; auto.
+  - subst x. apply F; auto.
+  - subst x. simpl render. eapply xunion_has; [eassumption|]. rewrite (xrun_plain_decimal XDecimal rp q' eq_refl H1 H2). reflexivity.
+Qed.
+Print Assumptions C05_unions.
+Example C05_unions_nonvacuous : List.length urows = 4%nat /\ lib_check lib_st "XSDSimpleTypeFontSize" (VStr (cp "x-large")) = Ok
+  /\ lib_check lib_st "XSDSimpleTypePositiveIntegerOrEmpty" (VStr []) = Ok /\ lib_check lib_st "XSDSimpleTypePositiveIntegerOrEmpty" (VInt 0) = ValueErr.
+Proof. vm_compute. auto. Qed.
+
 (* ---- patterns: the library's translated pattern is, as an AST, the schema's pattern ---- *)
 Definition lib_pattern (r:rcls) : option cre := match r with R _ _ _ _ p _ _ _ _ _ => p end.
 Definition pat_row_ok (row:string * string * option rcls * option xr) : bool :=
